@@ -56,6 +56,9 @@ def build(repo=None):
 
     is_token_loop = lambda x: isinstance(x, ast.For) and ".split(" in ast.unparse(x.iter)  # by role: the loop over the pieces of the specification string
     token_loops = [x for x in fn.body if is_token_loop(x)]
+    if not token_loops:
+        # ... or, when the pieces are computed beforehand, the one top-level loop that contains the modifier-stripping `while` (what it iterates over is then judged below)
+        token_loops = [x for x in fn.body if isinstance(x, ast.For) and any(isinstance(w, ast.While) for w in ast.walk(x))]
     parse_fn = fn
     if not token_loops:
         # the token loop may have been moved into a private module-level helper called on the specification string: `dims, index_variadic = <helper>(dim_str)`
